@@ -15,6 +15,31 @@ def main():
     text += ("Each change was written by a sub-agent that saw only the property text and a scratch worktree, confirmed by me "
              "(demo passes on the clean tree and fails with the change; the suite's result line is unchanged), then the quick "
              "check was run against the changed checkout.  Stored under `seeded/<id>/`.\n\n")
+    tot = {"replay": 0, "nfi": 0, "missed": 0, "judged": 0, "first_missed": 0}
+    for d in sorted(glob.glob(os.path.join(V, "seeded", "*"))):
+        mp = os.path.join(d, "meta.json")
+        if not os.path.exists(mp):
+            continue
+        m = json.load(open(mp))
+        first = m.get("check_result_quick", "")
+        res = m.get("retest_quick", first)
+        if "VIOLATION" not in first:
+            tot["first_missed"] += 1
+        if m.get("judged"):
+            tot["judged"] += 1
+        elif "VIOLATION" not in res:
+            tot["missed"] += 1
+        elif res.count("VIOLATION") == res.count("no-failing-input-found"):
+            tot["nfi"] += 1
+        else:
+            tot["replay"] += 1
+    n = sum(tot[k] for k in ("replay", "nfi", "missed", "judged"))
+    text += ("Totals over the %d stored changes (five rounds, letters a-j, 10 per property), judged by the LAST run of the current "
+             "quick checks (`harness/finalretest.sh`): %d caught with a concrete failing input, %d caught as a broken proof "
+             "obligation / correspondence without a failing input (`no-failing-input-found`), %d missed, %d deliberately silent "
+             "(judged not to violate the property, reason in the row).  %d of them were missed by the version of the check that "
+             "existed when the change was written; each miss was analysed as a class of bug and the check widened (8a).\n\n"
+             % (n, tot["replay"], tot["nfi"], tot["missed"], tot["judged"], tot["first_missed"]))
     text += "| id | what the change does | needs | result of the quick check |\n|---|---|---|---|\n"
     for d in sorted(glob.glob(os.path.join(V, "seeded", "*"))):
         mp = os.path.join(d, "meta.json")
@@ -36,6 +61,20 @@ def main():
     text += ("Written by sub-agents that saw only the property text and were asked for realistic refactorings / changes of "
              "behaviour the property does not constrain; confirmed (suite line unchanged), then the property's quick check was run "
              "against the changed checkout.  Expected: silence.  Stored under `neutral/<id>/`.\n\n")
+    nn = na = nf = 0
+    for d in sorted(glob.glob(os.path.join(V, "neutral", "*"))):
+        mp = os.path.join(d, "meta.json")
+        if not os.path.exists(mp):
+            continue
+        m = json.load(open(mp))
+        nn += 1
+        if "VIOLATION" in m.get("retest_quick", m.get("check_result_quick", "")):
+            na += 1
+        if "VIOLATION" in m.get("check_result_quick", ""):
+            nf += 1
+    text += ("Totals over the %d stored harmless changes (two rounds, n1-n8 per property): %d alarm with the current checks; %d "
+             "alarmed with the version of the check that existed when they were written (causes and repairs: 8a and the "
+             "\"False alarms corrected\" sections of design.d).\n\n" % (nn, na, nf))
     text += "| id | what the change does | observable? | result of the quick check |\n|---|---|---|---|\n"
     for d in sorted(glob.glob(os.path.join(V, "neutral", "*"))):
         mp = os.path.join(d, "meta.json")
